@@ -769,12 +769,14 @@ int cmd_run(Options const& opt)
         int tries = 0, accepted = 0;
         auto tmin = Clock::now();
         bool progress = true;
-        while (progress && tries < opt.shrink_tries && elapsed_s(tmin) < opt.shrink_budget_s)
+        int max_tries = c.v.klass.rfind("crash", 0) == 0 || c.v.klass == "hang" ? opt.shrink_tries / 10
+                                                                              : opt.shrink_tries;
+        while (progress && tries < max_tries && elapsed_s(tmin) < opt.shrink_budget_s)
         {
             progress = false;
             for (auto const& cand : world->shrink(best))
             {
-                if (tries >= opt.shrink_tries || elapsed_s(tmin) > opt.shrink_budget_s)
+                if (tries >= max_tries || elapsed_s(tmin) > opt.shrink_budget_s)
                     break;
                 ++tries;
                 auto o = run_plan_forked(*world, cand, opt.property, runlog, run_timeout);
